@@ -51,8 +51,8 @@ KeyNone(kind) == [kd |-> "none", tw |-> ZeroSeq(BS(kind))]
 (* csz: width of the counter in bytes -- always the block size in the C library;  *)
 (* the Arduino CTR wrapper can narrow it (ArduinoTrace)                           *)
 CtrZeroed(kind) == [life |-> "zeroed", be |-> "gen", key |-> KeyNone(kind),
-                    pos |-> PosInit(BS(kind)), csz |-> BS(kind)]
-ParZeroed(kind) == [life |-> "zeroed", be |-> "gen", key |-> KeyNone(kind)]
+                    pos |-> PosInit(BS(kind)), csz |-> BS(kind), own |-> 0]
+ParZeroed(kind) == [life |-> "zeroed", be |-> "gen", key |-> KeyNone(kind), own |-> 0]
 
 KsInit  == [k \in SKinds |-> [o \in Objs |-> KsUnset]]
 TksInit == [k \in SKinds |-> [o \in Objs |-> TksUnset(k)]]
@@ -337,14 +337,16 @@ CapOf(ev) == IF env.hook = 1 /\ Has(ev, "cap") THEN ev.cap ELSE 2
 (* init: o = -1 (NULL) is an invalid call; an allocation failure injected    *)
 (* into ANY of the requests the init makes (ev.failed = 1: the failure was   *)
 (* actually delivered) must leave the object inert ("failed") and nothing    *)
-(* allocated; otherwise the object is live, owns exactly one more block and  *)
-(* is served by the widest back end.  How many requests and releases an init *)
-(* performs internally is not part of the contract: only the net number of   *)
-(* live blocks (ev.lv) and the absence of invalid frees are checked.         *)
+(* allocated; otherwise the object is live and is served by the widest back  *)
+(* end.  How many requests and releases an init performs, and how many       *)
+(* blocks a live object owns, is not part of the contract: the object owns   *)
+(* whatever the successful init kept (dl = ev.lv - live >= 0, remembered per *)
+(* object), no other call changes the number of live blocks, and cleanup     *)
+(* gives back exactly what the object owns.                                  *)
 InitOutcome(ev, kind, oldlife) ==
     IF ev.o < 0 THEN [ret |-> 0, life |-> "none", dl |-> 0]
     ELSE IF ev.failed = 1 THEN [ret |-> 0, life |-> "failed", dl |-> 0]
-    ELSE [ret |-> 1, life |-> "live", dl |-> 1]
+    ELSE [ret |-> 1, life |-> "live", dl |-> IF ev.lv >= live THEN ev.lv - live ELSE 0]
 
 ----------------------------------------------------------------------------
 (* CTR objects (C05, C06, C14..C17)                                        *)
@@ -362,17 +364,18 @@ TCtrInit ==
               ELSE ctr' = [ctr EXCEPT ![kind][o] =
                               [life |-> oc.life,
                                be |-> IF oc.ret = 1 THEN ev.be ELSE "gen",
-                               key |-> KeyNone(kind), pos |-> PosInit(BS(kind)), csz |-> BS(kind)]]
+                               key |-> KeyNone(kind), pos |-> PosInit(BS(kind)), csz |-> BS(kind),
+                               own |-> oc.dl]]
     /\ UNCHANGED <<env, ks, tks, mks, par>>
 
-(* cleanup: releases the block exactly once, wiped (C17); no-op otherwise *)
+(* cleanup: releases what the object owns exactly once, wiped (C17); no-op otherwise *)
 TCtrCleanup ==
     /\ IsEvent("ctr_cleanup")
     /\ LET ev == Ev  kind == ev.k  o == ev.o
            islive == o >= 0 /\ ctr[kind][o].life = "live"
        IN  /\ Chk("non-zero bytes in released memory", 0, ev.nz)
-           /\ Frame(ev, IF islive THEN live - 1 ELSE live)
-           /\ live' = IF islive THEN live - 1 ELSE live
+           /\ Frame(ev, IF islive THEN live - ctr[kind][o].own ELSE live)
+           /\ live' = IF islive THEN live - ctr[kind][o].own ELSE live
            /\ IF islive
               THEN ctr' = [ctr EXCEPT ![kind][o] = [CtrZeroed(kind) EXCEPT !.life = "dead"]]
               ELSE UNCHANGED ctr
@@ -531,7 +534,7 @@ TParInit ==
               ELSE par' = [par EXCEPT ![kind][o] =
                               [life |-> oc.life,
                                be |-> IF oc.ret = 1 THEN ev.be ELSE "gen",
-                               key |-> KeyNone(kind)]]
+                               key |-> KeyNone(kind), own |-> oc.dl]]
     /\ UNCHANGED <<env, ks, tks, mks, ctr>>
 
 TParCleanup ==
@@ -539,8 +542,8 @@ TParCleanup ==
     /\ LET ev == Ev  kind == ev.k  o == ev.o
            islive == o >= 0 /\ par[kind][o].life = "live"
        IN  /\ Chk("non-zero bytes in released memory", 0, ev.nz)
-           /\ Frame(ev, IF islive THEN live - 1 ELSE live)
-           /\ live' = IF islive THEN live - 1 ELSE live
+           /\ Frame(ev, IF islive THEN live - par[kind][o].own ELSE live)
+           /\ live' = IF islive THEN live - par[kind][o].own ELSE live
            /\ IF islive
               THEN par' = [par EXCEPT ![kind][o] = [ParZeroed(kind) EXCEPT !.life = "dead"]]
               ELSE UNCHANGED par
